@@ -148,6 +148,28 @@ def run_case(case):
     except Exception as e:
         res["aborted"] = exc_info(e)
         return res
+    if case["i"] % 6 == 5:
+        # an earlier backward run, and then the project written and read back into the SAME object (or edited):
+        # whatever the first backward run remembered must not come back in the examined one
+        from .history import Hist
+        hp = Hist(spec, order=False, model=m)
+        e0 = hp.do(["backward", bool(case["i"] % 4 < 2), True])
+        if e0 is None and case["i"] % 12 == 5:
+            e0 = hp.do(["reload"])
+            m.tasks = list(p.workflow.task_list)
+            res.count("C17.earlier_backward_then_reload")
+        elif e0 is None:
+            for t in p.workflow.task_list:           # new list objects with the same content, as an edit would leave them
+                t.input_task_list = list(t.input_task_list)
+                t.output_task_list = list(t.output_task_list)
+            for wp in p.organization.workplace_list:
+                wp.input_workplace_list = list(wp.input_workplace_list)
+                wp.output_workplace_list = list(wp.output_workplace_list)
+            res.count("C17.earlier_backward_then_lists_replaced")
+        if e0 is not None:
+            res["aborted"] = e0
+            return res
+        I.set_order(order)
     before = structure(p)
     # ---- reference backward run (no fault): collects the injection points
     pl = PhaseLog()
